@@ -3,7 +3,7 @@ from vlib import sesscheck
 
 ID = 'C16'
 LEVEL = 'exploration'
-RULE = "Same program space as C09 with creations and flushes weighted up (SQLite enforces foreign keys immediately). Oracle: if the reference store's pending new objects reference each other acyclically through columns, flush/commit must not raise a FOREIGN KEY integrity error or UnresolvableCyclicDependency; if they form a cycle, flush must raise and nothing is committed. UNIQUE failures from transient key conflicts are not judged here. Non-trivial = a flush with >=2 pending objects linked to each other or a delete and an insert in one flush; distinct by program hash."
+RULE = "Same program space as C09 with creations and flushes weighted up (SQLite enforces foreign keys immediately). Oracle: if the reference store's pending new objects reference each other acyclically through columns, flush/commit must not raise a FOREIGN KEY integrity error or UnresolvableCyclicDependency; if they form a cycle, flush must raise and nothing is committed. UNIQUE failures from transient key conflicts are not judged here. Non-trivial = a flush with >=2 pending objects linked to each other or a delete and an insert in one flush; distinct by program hash. A share of the programs (one third; one half for C11/C13/C15) comes from the hub family: every relationship starts at one entity, with cascading/unlinking relationships declared around a refusing one, populated, and then aimed operations (pending updates of children, pending removals on the hub collections, new children with explicit keys) precede the delete of the hub, so that deletes refused after part of their cascade are common."
 ASSUMPTIONS = ['live SQLite (in-memory) with foreign keys enforced immediately',
                'reference store vlib/refstore.py written from the documented relationship/cascade/key semantics (DESIGN.md section 7a)',
                'table and column names are taken from the mapping metadata (names only)']
